@@ -99,6 +99,12 @@ def build_items(dmax, cmax, rnd):
         comp = CompositeRepetitionCodeDescription(_base_description=base, _qubit_index_map={q_: i for i, q_ in enumerate(inv)}, _connectivity=lay,
                                                   _exclude_gate_edge_ids=[EdgeIDObj(QubitIDObj(anc), QubitIDObj(dat))])
         items.append(('composite-no-%s%s-c1-constructed' % (anc, dat), construct_repetition_code_circuit(qec_cycles=1, description=comp, initial_state=init3)))
+    # the same constructors for a chain WITHOUT qubit refocusing (data qubits idle during the rounds)
+    for d_, cyc in ((2, 1), (3, 2)):
+        descn = RepetitionCodeDescription.from_chain(length=2 * d_ - 1, qubit_refocusing=False)
+        initn = InitialStateContainer.from_ordered_list([InitialStateEnum.ONE if k % 2 == 0 else InitialStateEnum.ZERO for k in range(d_)])
+        items.append(('simplified-norefocus-d%d-c%d-constructed' % (d_, cyc), construct_repetition_code_circuit_simplified(qec_cycles=cyc, description=descn, initial_state=initn)))
+        items.append(('main-norefocus-d%d-c%d-unrolled' % (d_, cyc), construct_repetition_code_circuit(qec_cycles=cyc, description=descn, initial_state=initn).apply_modifiers()))
     for typ in (CalibrateType.QUBIT, CalibrateType.QUTRIT):
         for n in (1, 3):
             ids = [QubitIDObj('D%d' % (i + 1)) for i in range(n)]
